@@ -78,7 +78,7 @@ inductive ReadRes (α : Type) where
 
 /-- `read_layers` on the list of entry names and a lookup for the stored `(weights, bias)` pairs -/
 def readLayers (names : List String) (arrays : String → Option (Aff α)) : ReadRes α :=
-  let sorted := (names.toArray.qsort (fun a b => entryLe a b && a != b)).toList
+  let sorted := names.mergeSort entryLe
   let rec go : List String → Nat → List (Layer α) → ReadRes α
     | [], _, acc => .ok acc
     | nm :: rest, dim, acc =>
